@@ -191,7 +191,14 @@ func runC15(c *core.Ctx) {
 			continue
 		}
 		for _, al := range []signal.Allocator{{Channels: 1, Length: 0, Capacity: 4}, {Channels: 2, Length: 2, Capacity: 4}, {Channels: 3, Length: 3, Capacity: 3}, {Channels: 4, Length: 1, Capacity: 6}} {
-			for _, kind := range []string{"later-frame-slice", "grown", "foreign-larger", "foreign-smaller", "foreign-empty", "foreign-more-channels-same-frames", "foreign-fewer-channels-same-frames"} {
+			kinds := []string{"later-frame-slice", "grown", "foreign-larger", "foreign-smaller", "foreign-empty", "foreign-more-channels-same-frames", "foreign-fewer-channels-same-frames"}
+			// every total capacity within two frames of the pool's, as a mono buffer
+			for delta := -2 * al.Channels; delta <= 2*al.Channels; delta++ {
+				if delta != 0 && al.Channels*al.Capacity+delta >= 0 {
+					kinds = append(kinds, fmt.Sprintf("foreign-mono-total%+d", delta))
+				}
+			}
+			for _, kind := range kinds {
 				caseID := fmt.Sprintf("Put[%s]/%d-%d-%d/%s", t.Name, al.Channels, al.Length, al.Capacity, kind)
 				if !c.Want(caseID) {
 					continue
@@ -223,6 +230,12 @@ func runC15(c *core.Ctx) {
 						continue
 					}
 					rej = t.Alloc(signal.Allocator{Channels: al.Channels - 1, Length: al.Length, Capacity: al.Capacity})
+				default:
+					var delta int
+					fmt.Sscanf(kind, "foreign-mono-total%d", &delta)
+					tot := al.Channels*al.Capacity + delta
+					rej = t.Alloc(signal.Allocator{Channels: 1, Length: tot / 2, Capacity: tot})
+					c.Obs("put_foreign_totals_within_two_frames", 1)
 				}
 				// recognisable contents over the whole capacity of the rejected buffer
 				all := rej.RawAll()
